@@ -254,6 +254,9 @@ func gen(t *rapid.T) Case {
 	used := map[string]bool{}
 	for i := 0; i < n; i++ {
 		name := enzymeNameGen.Draw(t, "enzyme_name")
+		if !used[""] && rapid.IntRange(0, 19).Draw(t, "empty_name") == 0 {
+			name = "" // "each field possibly empty" includes <1>: at most one such record, keyed by the empty string
+		}
 		for used[name] {
 			name += "I" // distinct by construction
 		}
